@@ -64,7 +64,10 @@ MUTANTS = [
      ["C09", "C14"], "caught"),
     ("update-value-no-dirty", C,
      "        np.copyto(self._value, new_cell._value)\n        self._value.modified = True",
-     "        np.copyto(self._value, new_cell._value)", ["C09"], "caught"),
+     "        np.copyto(self._value, new_cell._value)", ["C09"], "silent"),
+    # ^ equivalent for C09: a solve result never depends on the stored values or
+    #   ghost layer of the variable (only on the cached boundary term), so the
+    #   value dirty bit cannot make "the next solve" differ from a fresh start
     ("epoch-never-bumped", C, "            self.BCs._epoch += 1", "            pass", ["C09", "C04"], "caught"),
     ("explicit-ignores-dirty", P,
      "    if phi_old.BCs.modified or phi_old.value.modified\\\n       or phi_old._BCs_epoch != phi_old.BCs._epoch:\n        phi_old.apply_BCs()\n",
@@ -74,7 +77,7 @@ MUTANTS = [
     ("value-setter-bypasses-tracking", C,
      "        if issubclass(type(self.domain), Grid1D):\n            self._value[1:-1] = values\n",
      "        if issubclass(type(self.domain), Grid1D):\n            np.copyto(np.asarray(self._value)[1:-1], values)\n",
-     ["C09"], "caught"),
+     ["C09"], "silent"),   # equivalent for C09, same reason as update-value-no-dirty
     # ---------------------------------------------------------------- C14
     ("add-in-place", C,
      "    def __add__(self, other):\n        if type(other) is CellVariable:\n            return CellVariable(self.domain, \n                                self.value + other.value,",
